@@ -66,6 +66,15 @@ Theorem C17_delay_reason_matches : forall st ls l,
   (o_reason (verdict st ls l) = RQ -> l_qb l = true).
 Proof. exact delay_reason_matches. Qed.
 
+(** The [unwrap()] in the sustained-delay arm cannot panic. *)
+Theorem C17_no_unwrap_panic : forall sel l (e : lst),
+  (WEAK_SUSTAIN_TICKS <=? match delay_signal sel l with
+                          | Some _ => sat_add_u32 (s_ds e) 1
+                          | None => 0
+                          end) = true ->
+  delay_signal sel l <> None.
+Proof. exact no_unwrap_panic. Qed.
+
 (** Clause 3. Memory bounds after every history (no well-formedness needed): the
     share-weak streak stays below 15, the probation counter within 0..3. *)
 Theorem C17_state_bounds : forall ops id, entry_ok (mem (state_after [] ops) id).
